@@ -64,6 +64,8 @@ def dump(e):
                 qp = Fraction(txt)
             except Exception:
                 raise Unsupported("number text " + txt)
+            if max(abs(qv.numerator), qv.denominator, abs(qp.numerator), qp.denominator).bit_length() > 1400:
+                raise Unsupported("number with more than 400 digits")
             return ["N", cls, txt, [qv.numerator, qv.denominator], [qp.numerator, qp.denominator]]
         raise Unsupported("atom class " + cls)
     if e.is_symbol:
